@@ -51,6 +51,9 @@ def run(ctx, bt):
                         spec_mutator=_G.carry_open_close, corr_name="step[C02]:carry-open-close")
     run_engine_protocol(ctx, bt, ctx.scale(30, 400), [Monitor(ctx)], FOOT_FIELDS, None,
                         spec_mutator=_G.zero_spell_hold, corr_name="step[C02]:hold-through-zero-price-spells")
+    # carry accrued on the eve of a liquidation: levered market-value roots holding coupon-paying securities through crashes
+    run_engine_protocol(ctx, bt, ctx.scale(25, 400), [Monitor(ctx)], FOOT_FIELDS, None, spec_kwargs={"fi_tree": False},
+                        spec_mutator=_G.carry_tree, corr_name="step[C02]:carry-into-liquidation")
     run_engine_protocol(ctx, bt, ctx.scale(110, 1200), [Monitor(ctx)], FOOT_FIELDS, None, corr_name="step[C02]")
     run_programs(ctx, bt, ctx.scale(90, 1500), check_program)
     from ..runs_run import run_steps_protocol
